@@ -640,7 +640,13 @@ class SysSim(Engine):
                 gray = [v for v in imb.values() if 0.0 < v < 0.1]
                 arrs = [f.values for f in sys_.flows.values()] + [a.values for s_ in sys_.stocks.values() for a in (s_.inflow, s_.outflow)]
                 if any(np.any(a[np.isfinite(a)] != np.round(a[np.isfinite(a)])) for a in arrs):
-                    gray = gray or [0.0]
+                    # non-integer values around: "pass" cannot be demanded (flodym's partial sums may round), but an imbalance far above
+                    # the rounding noise (a few ulp of the largest value; the default tolerance is 100 ulp) must still be reported
+                    noise = ref_default_tolerance(sys_) / 8
+                    if not (noise == noise and max(imb.values(), default=0.0) >= noise):
+                        gray = gray or [0.0]
+                    else:
+                        gray = []
             if gray:
                 self._probe(st, "verdict_in_gray_zone_skipped")
                 return
